@@ -251,7 +251,8 @@ class Model:
         if t.kind == 'int':
             w = t.bits
             mx, mn = self.tmax(t), self.tmin(t)
-            cand = [0, 1, 2, -1, mx, mn, mx - 1, mn + 1, ((1 << w) - 1) // 3, w - 1, w, 1 << (w // 2)]
+            # the first five are what the quick tier uses: keep MIN (all low bits clear) and 2^(w/2) early
+            cand = [0, 1, -1, mx, mn, 1 << (w // 2), 2, mx - 1, mn + 1, ((1 << w) - 1) // 3, w - 1, w]
             if extra:
                 cand += [-2, 3, (1 << 62) + (1 << 38) + 1, (1 << 63) + (1 << 39) + 1, (1 << 31), (1 << 24) + 1, -(1 << 31) - 1, 255, 128, -128]
         else:
